@@ -1113,7 +1113,13 @@ class Authenticated(BaseClientHandler):
         ):
             all_names.add("INBOX" if name.lower() == "inbox" else name)
         for mbox_name, attributes, child_info in results:
-            has_children = any(n.startswith(mbox_name + "/") for n in all_names)
+            # NOTE: The children of the inbox are stored (and listed) under
+            #       the name we keep the inbox under: `inbox/...`
+            #
+            stored_name = "inbox" if mbox_name == "INBOX" else mbox_name
+            has_children = any(
+                n.startswith(stored_name + "/") for n in all_names
+            )
             if has_children:
                 attributes.discard(r"\HasNoChildren")
                 attributes.add(r"\HasChildren")
